@@ -464,7 +464,128 @@ def rule_header_cover(ctx: Ctx) -> None:
                      func=f"CircuitDAG.{api}", construct=f"CircuitDAG.{api}: operation enters without _openqasm_update")
 
 
+def _fstring_slots(js: ast.JoinedStr):
+    """[(literal text before the slot, slot expression)] of an f-string"""
+    out, before = [], ""
+    for v in js.values:
+        if isinstance(v, ast.Constant):
+            before += str(v.value)
+        elif isinstance(v, ast.FormattedValue):
+            out.append((before, v.value))
+            before = ""
+    return out
+
+
+def rule_qasm_classical_register(ctx: Ctx) -> None:
+    """qasm.creg: in the openQASM usage strings a measurement is written into the operation's *classical* register: the slot after
+    `-> c` is an element of the classical-register argument, and an `if (c<k>==1)` that follows tests the same element."""
+    repo = ctx.repo
+    m = repo.module(OQ)
+    n = 0
+    for fn in [f for f in ast.walk(m.tree) if isinstance(f, ast.FunctionDef)]:
+        ps = func_params(fn)
+        cregs = {p_ for p_ in ps if p_.startswith("c_reg") or p_ in ("c_registers", "creg")}
+        targets, tests = [], []
+        def _owner(n_):
+            p2 = parent(n_)
+            while p2 is not None and not isinstance(p2, ast.FunctionDef):
+                p2 = parent(p2)
+            return p2
+        for js in [x for x in ast.walk(fn) if isinstance(x, ast.JoinedStr) and _owner(x) is fn]:
+            for before, e in _fstring_slots(js):
+                if before.rstrip().endswith("-> c") or before.endswith("->c"):
+                    targets.append((js, e))
+                if before.rstrip().endswith("if (c") or before.rstrip().endswith("if(c"):
+                    tests.append((js, e))
+        if not targets:
+            continue
+        if not cregs:
+            raise AnalysisError(f"{fn.name}: writes `measure ... -> c<k>` but has no classical-register parameter")
+        for js, e in targets:
+            n += 1
+            ctx.touch(m, fn)
+            names = {x.id for x in ast.walk(e) if isinstance(x, ast.Name)}
+            if names & cregs and not (names - cregs):
+                ctx.ok("qasm.creg", m, js, what=f"{fn.name}: measurement stored in c{{{norm(e)}}}")
+            else:
+                ctx.fail("qasm.creg", m, js,
+                         f"{fn.name} writes `measure ... -> c{{{norm(e)}}}`: the classical register is numbered by `{norm(e)}`, not by the operation's "
+                         f"classical register {sorted(cregs)}; for an operation whose quantum and classical register indices differ, the text stores "
+                         f"the outcome in one creg and conditions on another", func=fn.name, construct=f"{fn.name}: measure target c{{{norm(e)}}}")
+        for js, e in tests:
+            n += 1
+            if any(norm(e) == norm(t) for _, t in targets):
+                ctx.ok("qasm.creg", m, js, what=f"{fn.name}: condition tests the register just written")
+            else:
+                ctx.fail("qasm.creg", m, js, f"{fn.name} conditions on `c{{{norm(e)}}}` but measures into {[norm(t) for _, t in targets]}",
+                         func=fn.name, construct=f"{fn.name}: condition register c{{{norm(e)}}}")
+    if n < 3:
+        raise AnalysisError("qasm.creg: measurement usage strings not found")
+
+
+def rule_json_fields(ctx: Ctx) -> None:
+    """json.fields: every per-operation key that to_json writes is read back by from_json for every operation that carries it.  A key
+    read only under a class test must cover every operation class that has the field (c_register: the classically controlled pair
+    operations *and* MeasurementZ)."""
+    repo = ctx.repo
+    DAGF = "graphiq/circuit/circuit_dag.py"
+    m = repo.module(DAGF)
+    tj = repo.anchor(DAGF, "CircuitDAG.to_json")
+    fj = repo.anchor(DAGF, "CircuitDAG.from_json")
+    ctx.touch(m, tj)
+    ctx.touch(m, fj)
+    written = set()
+    for d in [x for x in ast.walk(tj) if isinstance(x, ast.Dict)]:
+        ks = {k.value for k in d.keys if isinstance(k, ast.Constant) and isinstance(k.value, str)}
+        if "type" in ks:
+            written |= ks
+    written -= {"type", "ops"}
+    if not written:
+        raise AnalysisError("to_json: per-operation dict not found")
+    opm = repo.module(OPS)
+    loops_ = [l for l in ast.walk(fj) if isinstance(l, ast.For)]
+    for key in sorted(written):
+        reads = [x for x in ast.walk(fj) if isinstance(x, ast.Subscript) and isinstance(x.slice, ast.Constant) and x.slice.value == key]
+        if not reads:
+            ctx.fail("json.fields", m, fj, f"from_json never reads the key '{key}' that to_json writes for every operation", func="CircuitDAG.from_json",
+                     construct=f"from_json: key {key} not read")
+            continue
+        for r in reads:
+            conds = []
+            p_ = parent(r)
+            while p_ is not None and p_ is not fj:
+                if isinstance(p_, ast.If) and not any(isinstance(x, ast.Constant) and x.value == "type" for x in ast.walk(p_.test)):
+                    conds.append(p_)
+                p_ = parent(p_)
+            cls_guards = [c for c in conds if any(isinstance(x, ast.Call) and call_name(x) in ("issubclass", "isinstance") for x in ast.walk(c.test))]
+            if not cls_guards:
+                ctx.ok("json.fields", m, r, what=f"from_json reads '{key}' for every operation")
+                continue
+            field = {"c_registers": "c_register", "q_registers": "register", "q_registers_type": "reg_type"}.get(key, key)
+            g = cls_guards[0]
+            gnames = [dotted(x.args[1]).split(".")[-1] for x in ast.walk(g.test) if isinstance(x, ast.Call) and call_name(x) in ("issubclass", "isinstance")
+                      and len(x.args) == 2 and dotted(x.args[1])]
+            holders = []
+            for lst in repo.classes.values():
+                for ci in lst:
+                    if ci.module.rel != OPS:
+                        continue
+                    init = ci.methods().get("__init__")
+                    if init is not None and field in func_params(init):
+                        holders.append(ci)
+            missed = [ci.name for ci in holders if not any(any(k.name == gn for k in repo.mro(ci)) for gn in gnames)]
+            if missed:
+                ctx.fail("json.fields", m, r,
+                         f"from_json reads '{key}' only for {gnames}; {sorted(missed)} also take a `{field}` and are rebuilt with the default one: a "
+                         f"{sorted(missed)[0]} exported with {field} != 0 is loaded onto classical register 0", func="CircuitDAG.from_json",
+                         construct=f"from_json: key {key} read only for {gnames}")
+            else:
+                ctx.ok("json.fields", m, r, what=f"from_json reads '{key}' for every class that has it")
+
+
 def run(ctx: Ctx) -> None:
+    rule_qasm_classical_register(ctx)
+    rule_json_fields(ctx)
     from ..rules import order as _order
     _order.rule_sequence_source(ctx, [("graphiq/circuit/circuit_dag.py", "CircuitDAG.to_json"), ("graphiq/circuit/circuit_dag.py", "CircuitDAG._slim_seq"), ("graphiq/circuit/circuit_base.py", "CircuitBase.to_openqasm")])
     from ..rules import memo as _memo
@@ -484,6 +605,7 @@ def run(ctx: Ctx) -> None:
 
 
 KNOCKOUTS = [
+    Knockout("measure-into-quantum-index", OQ, sub_nth('-> c{c_reg[0]}[0]; \\n"', '-> c{q_reg[0]}[0]; \\n"', 0), "qasm.creg", "measure target"),
     Knockout("export-node-order", "graphiq/circuit/circuit_dag.py", sub_once("        for op in self.sequence():\n            if isinstance(op, ops.InputOutputOperationBase):", "        for op in [self.dag.nodes[k]['op'] for k in self.dag.nodes]:\n            if isinstance(op, ops.InputOutputOperationBase):"), "order.topological", "node-creation order"),
 
     Knockout("regex-repeated-group", DAG,
